@@ -950,7 +950,13 @@ impl Pair {
     fn new(c: &SyncCase, a: State, b: State) -> Pair {
         let cfg = AntiEntropyConfig { max_keys_per_sync: c.limit, merkle_tree_depth: c.depth, ..AntiEntropyConfig::default() };
         if c.site == "run_anti_entropy_sync" {
-            let mut sim = MultiNodeSimulation::new(2, 1);
+            // a third of the simulated pairs are two members of a partitioned cluster (3 nodes, replication factor 1 or 2, so
+            // each of them is a ring replica for a part of the keys only): a sync between two connected replicas still
+            // leaves both with the merge for every key of the divergent buckets
+            let mut sim = match (c.limit + c.depth + c.a.len() + c.b.len()) % 3 {
+                0 => MultiNodeSimulation::new_partitioned(3, 1 + (c.a.len() % 2), 1),
+                _ => MultiNodeSimulation::new(2, 1),
+            };
             sim.partition(0, 1);
             for (i, st) in [a, b].into_iter().enumerate() {
                 sim.nodes[i].anti_entropy.config = cfg.clone();
